@@ -1373,11 +1373,11 @@ def describe_env(trace, at):
 # ===================================================================== the run
 
 NEG = [
-    ("MergeFields", "MC_MergeFields_neg.cfg", 'Defects = {}', 'Defects = {"keepends"}', {"AllWellFormed", "ResWellFormed"}),
-    ("MergeFields", "MC_MergeFields_neg.cfg", 'NoSort = FALSE', 'NoSort = TRUE', {"ImplRefines"}),
-    ("BuildInfoEnv", "MC_BuildInfoEnv_neg.cfg", 'Defects = {}', 'Defects = {"eof"}', {"EndsClean", "Lossless"}),
-    ("BuildInfoEnv", "MC_BuildInfoEnv_neg.cfg", 'Defects = {}', 'Defects = {"nobs"}', {"RoundTrip"}),
-    ("BuildInfoEnv", "MC_BuildInfoEnv_neg.cfg", 'Defects = {}', 'Defects = {"noname"}', {"NamesValid"}),
+    ("MergeFields", "MergeFields_neg.cfg", 'Defects = {}', 'Defects = {"keepends"}', {"AllWellFormed", "ResWellFormed"}),
+    ("MergeFields", "MergeFields_neg.cfg", 'NoSort = FALSE', 'NoSort = TRUE', {"ImplRefines"}),
+    ("BuildInfoEnv", "BuildInfoEnv_neg.cfg", 'Defects = {}', 'Defects = {"eof"}', {"EndsClean", "Lossless"}),
+    ("BuildInfoEnv", "BuildInfoEnv_neg.cfg", 'Defects = {}', 'Defects = {"nobs"}', {"RoundTrip"}),
+    ("BuildInfoEnv", "BuildInfoEnv_neg.cfg", 'Defects = {}', 'Defects = {"noname"}', {"NamesValid"}),
 ]
 
 
@@ -1389,14 +1389,14 @@ def model_checking(ctx, quick):
         assert text != cfg_text(cfg)
         jobs.append(("neg:%s:%s" % (mod, new), mod, text, 1, dict(count=False), invs))
     if quick:
-        jobs += [("merge", "MergeFields", "MC_MergeFields_quick.cfg", 1, dict(keep_raw=True, want_tags=set()), None),
-                 ("laws", "MergeFields", "MC_MergeFields_laws_quick.cfg", 1, {}, None),
-                 ("env", "BuildInfoEnv", "MC_BuildInfoEnv_quick.cfg", 1, dict(keep_raw=True, want_tags=set()), None)]
+        jobs += [("merge", "MergeFields", "MergeFields_quick.cfg", 1, dict(keep_raw=True, want_tags=set()), None),
+                 ("laws", "MergeFields", "MergeFields_laws_quick.cfg", 1, {}, None),
+                 ("env", "BuildInfoEnv", "BuildInfoEnv_quick.cfg", 1, dict(keep_raw=True, want_tags=set()), None)]
         width = 8
     else:
-        jobs += [("merge", "MergeFields", "MC_MergeFields.cfg", 2, dict(keep_raw=True, want_tags=set()), None),
-                 ("laws", "MergeFields", "MC_MergeFields_laws.cfg", 2, {}, None),
-                 ("env", "BuildInfoEnv", "MC_BuildInfoEnv.cfg", 4, dict(keep_raw=True, want_tags=set()), None)]
+        jobs += [("merge", "MergeFields", "MergeFields_bnd.cfg", 2, dict(keep_raw=True, want_tags=set()), None),
+                 ("laws", "MergeFields", "MergeFields_laws.cfg", 2, {}, None),
+                 ("env", "BuildInfoEnv", "BuildInfoEnv_bnd.cfg", 4, dict(keep_raw=True, want_tags=set()), None)]
         jobs.sort(key=lambda j: -j[3])
         width = 3
     out = {}
@@ -1438,8 +1438,8 @@ def run(ctx):
     res = model_checking(ctx, quick)
     timing = {"model_checking": round(time.time() - t0, 1)}
     ctx.extra["timing_s"] = timing
-    ctx.extra["model_constants"] = {"MergeFields": "MC_MergeFields%s.cfg" % ("_quick" if quick else ""),
-                                    "BuildInfoEnv": "MC_BuildInfoEnv%s.cfg" % ("_quick" if quick else "")}
+    ctx.extra["model_constants"] = {"MergeFields": "MergeFields_%s.cfg + MergeFields_laws%s.cfg" % ("quick" if quick else "bnd", "_quick" if quick else ""),
+                                    "BuildInfoEnv": "BuildInfoEnv_%s.cfg" % ("quick" if quick else "bnd")}
     # ---- spec -> code
     t0 = time.time()
     nm, mk = replay_merge_cases(ctx, res["merge"].raw_path, hits, quick)
